@@ -277,10 +277,40 @@ def defs_view(defs):
     return out
 
 
+def blank_pieces(text, runs, toks_pos, toks_end):
+    """maximal runs of blank bytes, split where the origin map is not contiguous:
+    [{t, f, off, prev, next}] with prev/next = 1-based index of the neighbouring token (0 = none)"""
+    b = text.encode()
+    out = []
+    n = len(b)
+    i = 0
+    import bisect
+    inside = bytearray(n)
+    for a, e in zip(toks_pos, toks_end):
+        for q in range(a, e):
+            inside[q] = 1          # blanks inside strings/comments belong to the token
+    while i < n:
+        if b[i] in b" \t\r\n\f" and not inside[i]:
+            j = i
+            f, off = origin_at(runs, i)
+            while j + 1 < n and b[j + 1] in b" \t\r\n\f" and not inside[j + 1]:
+                f2, off2 = origin_at(runs, j + 1)
+                if f2 != f or (f != "" and off2 != off + (j + 1 - i)):
+                    break
+                j += 1
+            k = bisect.bisect_right(toks_pos, i)     # tokens starting before i
+            nxt = k + 1 if k < len(toks_pos) else 0
+            out.append({"t": b[i:j + 1].decode("utf-8", "replace"), "f": f, "off": off, "prev": k, "next": nxt})
+            i = j + 1
+        else:
+            i += 1
+    return out
+
+
 def observe_pp(res):
     """harness result of preprocess/preprocess_str -> obs record for Preproc_Trace"""
     oc = res.get("outcome")
-    obs = {"outcome": oc, "toks": [], "defs": [], "err": [], "msg": ""}
+    obs = {"outcome": oc, "toks": [], "blanks": [], "defs": [], "err": [], "msg": ""}
     if oc == "ok":
         text = res["text"]
         runs = res.get("origins", [])
@@ -299,6 +329,9 @@ def observe_pp(res):
                     break
             toks.append({"t": t, "f": f, "off": off, "c": c, "ct": contig})
         obs["toks"] = toks
+        tk = tokenize(text)
+        obs["blanks"] = blank_pieces(text, runs, toks_pos=[len(text[:o].encode()) for (o, t, c) in tk],
+                                     toks_end=[len(text[:o].encode()) + len(t.encode()) for (o, t, c) in tk])
         obs["defs"] = defs_view(res["defs"])
     elif oc == "err":
         obs["err"] = err_to_spec(res["err"])
